@@ -9,6 +9,16 @@ from ..sym import Sym
 VERIF = os.path.dirname(os.path.dirname(os.path.dirname(os.path.abspath(__file__))))
 
 
+def _rhs_val(S, st):
+    """symbolic value of a statement's right-hand side, through the temporary the Sym evaluator would create for it"""
+    r = st["rhs"]
+    if r["rv"] == "use":
+        return S.val(r["ops"][0])
+    if r["rv"] == "agg":
+        return "%s{%s}" % (r.get("adt") or "?", ",".join(S.val(o) for o in r["ops"]))
+    return "?%s" % r["rv"]
+
+
 def run(ctx):
     prog = ctx.prog
     k = prog.const("msi::internal::language::LANGUAGES")
@@ -93,6 +103,28 @@ def run(ctx):
     v = Sn.val(agg[0]["rhs"]["ops"][0]) if agg else ""
     ctx.check(v == "(p1 BitOr (p2 Shl c:%d))" % shift, "LANG-FIT", "Language::new composes lang | (sublang << SUBLANG_SHIFT)", v,
               "Language::new builds the code as %s" % v, f_new.loc(), fn=f_new.name)
+
+    ctx.rule("LANG-CODE", "Language::from_code stores its argument unchanged on every path (or recomposes it from exactly `code & LANG_MASK` and `code >> SUBLANG_SHIFT`), "
+                          "and Language::code returns the stored field: a code is never normalised, so every 16-bit identifier read from a summary is written back as it was")
+    f_fc = prog.fn("msi::internal::language::Language::from_code")
+    f_code = prog.fn("msi::internal::language::Language::code")
+    for (g, want, what) in ((f_fc, (r"internal::language::Language\{p1\}", r"internal::language::Language::new\(\(p1 BitAnd c:%d\),\(p1 Shr c:%d\)\)" % (mask, shift)), "from_code"),
+                            (f_code, (r"\*p1\.code", r"p1\.code"), "code")):
+        Sg = Sym(prog, g)
+        rets = []
+        for bl in g.blocks:
+            if bl["cleanup"]:
+                continue
+            for st in bl["stmts"]:
+                if st["lhs"]["l"] == 0 and not st["lhs"]["p"]:
+                    rets.append(_rhs_val(Sg, st))
+            t = bl["term"]
+            if t["t"] == "call" and t["dest"]["l"] == 0 and not t["dest"]["p"]:
+                rets.append("%s(%s)" % (re.sub(r"^msi::", "", t.get("callee") or "?"), ",".join(Sg.val(a) for a in t["args"])))
+        bad = [r for r in rets if not any(re.fullmatch(w, r) for w in want)]
+        ctx.check(bool(rets) and not bad, "LANG-CODE", "Language::%s preserves the code" % what, str(rets[:2]),
+                  "Language::%s can yield %s instead of the unchanged code: identifiers are rewritten when a package is read and saved" % (what, bad[:3]),
+                  g.loc(), fn=g.name, key="LANG-CODE|%s" % what)
 
     ctx.rule("LANG-REF", "every table entry that also occurs in the frozen Windows reference (by code or by tag) agrees with it; the six "
                          "identifiers the property names are present")
